@@ -224,6 +224,9 @@ type KnownFinding struct {
 	Obligation string `json:"obligation"`
 	What       string `json:"what_fails"`
 	Input      string `json:"failing_input,omitempty"`
+	// Case identifies ONE failing case of a bounded audit (the audit prints "bounded: CASE <id>: ..." for
+	// every case that fails and goes on): the obligation counts as known only if every failing case is listed
+	Case string `json:"case,omitempty"`
 }
 
 type KnownFile struct {
